@@ -88,10 +88,16 @@ func (pw *packetWriter) Write(p []byte) (n int, err error) {
 func (pw *packetWriter) ReadFrom(r io.Reader) (n int64, err error) {
 	buf := pw.pkt[:]
 	for {
-		nr, er := io.ReadFull(r, buf)
-		if er == io.ErrUnexpectedEOF {
-			// a partial packet at the end of the stream; reported below
-			er = io.EOF
+		// fill the packet buffer: a reader may deliver a packet in several pieces
+		// (io.ReadFull is not used because it reports the end of the stream inside
+		// a packet as io.ErrUnexpectedEOF, which a reader may also return as its
+		// own failure)
+		nr := 0
+		var er error
+		for nr < PacketSize && er == nil {
+			var m int
+			m, er = r.Read(buf[nr:])
+			nr += m
 		}
 		if nr == PacketSize {
 			nw, ew := pw.WritePacket(&pw.pkt)
